@@ -16,10 +16,11 @@ import (
 
 // H is the handler type T the harness instantiates routers with: a symbolic term.
 type H struct {
-	term string
-	core string     // U, NF, OP, NA, TR, GNF
-	node types.Node // node captured by the OPTIONS / 405 builders
-	id   string     // handler id of user handlers
+	term   string
+	core   string     // U, NF, OP, NA, TR, GNF
+	node   types.Node // node captured by the OPTIONS / 405 builders
+	id     string     // handler id of user handlers
+	layers []string   // middleware ids around the core, outermost first
 }
 
 func (h *H) coreID() string {
@@ -39,7 +40,7 @@ func (m mwT) Middleware(next *H, method, pattern, router string) *H {
 	if m.log != nil {
 		*m.log = append(*m.log, t)
 	}
-	return &H{term: t, core: next.core, node: next.node, id: next.id}
+	return &H{term: t, core: next.core, node: next.node, id: next.id, layers: append([]string{m.id}, next.layers...)}
 }
 
 // what the CallFunc saw during the last request
@@ -516,5 +517,106 @@ func runScript(w http.ResponseWriter, evs []string) {
 			fmt.Sscan(evs[i+1], &n)
 			w.Write(make([]byte, n))
 		}
+	}
+}
+
+// execC19 runs the program as written (through Prefix/Resource objects) and a second time
+// desugared into plain Router calls on a fresh router, and reports whether every
+// observation of the two runs is identical (the model predicts "1").
+func execC19(ops [][]string, w *W) {
+	if len(ops) == 0 || ops[0][0] != "cfg" {
+		panic("RT program must start with cfg")
+	}
+	w.H(ops[0]...)
+	w.O(ops[0]...)
+	w.R("unknown-op")
+	e := newRtEnv(ops[0])
+	e2 := newRtEnv(ops[0])
+	type fac struct {
+		prefix  bool
+		pattern string
+		mws     []string
+	}
+	facs := map[string]fac{}
+	firstDiff := -1
+	for i, o := range ops[1:] {
+		obs := e.execRtOp(o)
+		w.O(o...)
+		w.R(obs...)
+		// ---- desugared twin
+		var o2 []string
+		switch o[0] {
+		case "prefix", "resource":
+			ids, _ := takeList(o[4:])
+			parent, hasParent := facs[o[2]]
+			if hasParent && !parent.prefix {
+				continue // a Resource has no Prefix/Resource methods: the call is ignored
+			}
+			f := fac{prefix: o[0] == "prefix", pattern: o[3], mws: ids}
+			if hasParent {
+				f.pattern = parent.pattern + o[3]
+				f.mws = append(append([]string{}, ids...), parent.mws...)
+			}
+			facs[o[1]] = f
+			continue
+		case "handle":
+			if f, ok := facs[o[1]]; ok {
+				mwIDs, rest := takeList(o[4:])
+				p := f.pattern
+				if f.prefix {
+					p += o[2]
+				}
+				o2 = append([]string{"handle", "r", p, o[3]}, append(list(append(append([]string{}, mwIDs...), f.mws...)...), rest...)...)
+			}
+		case "remove":
+			if f, ok := facs[o[1]]; ok {
+				p := f.pattern
+				if f.prefix {
+					p += o[2]
+				}
+				o2 = append([]string{"remove", "r", p}, o[3:]...)
+			}
+		case "clean":
+			if f, ok := facs[o[1]]; ok {
+				if f.prefix {
+					o2 = []string{"cleanprefix", f.pattern}
+				} else {
+					o2 = append([]string{"remove", "r", f.pattern}, list()...)
+				}
+			}
+		case "url":
+			if f, ok := facs[o[1]]; ok {
+				p := f.pattern
+				if f.prefix {
+					p += o[3]
+				}
+				o2 = append([]string{"url", "r", o[2], p}, o[4:]...)
+			}
+		}
+		if o2 == nil {
+			o2 = o
+		}
+		var obs2 []string
+		if o2[0] == "cleanprefix" {
+			// Prefix.Clean == Remove of every route whose pattern starts with the prefix
+			obs2 = outcome(guard(func() {
+				for pat := range e2.r.Routes() {
+					if pat != "*" && strings.HasPrefix(pat, o2[1]) {
+						e2.r.Remove(pat)
+					}
+				}
+			}))
+		} else {
+			obs2 = e2.execRtOp(o2)
+		}
+		if firstDiff < 0 && o[0] != "dump" && strings.Join(obs, "\x00") != strings.Join(obs2, "\x00") {
+			firstDiff = i + 1
+		}
+	}
+	w.O("c19eq")
+	if firstDiff < 0 {
+		w.R("1")
+	} else {
+		w.R("0", itoa(firstDiff))
 	}
 }
